@@ -20,7 +20,8 @@
 (* (Prng bytes keyed by Seed and the index) unless the environment makes it     *)
 (* misbehave: every action takes a fault argument f (0 = none, else             *)
 (* (index+1)*10 + kind; kind 1 = one byte short, 2 = error, 3 = zero bytes       *)
-(* without error) naming the source call that goes wrong during that action.    *)
+(* without error, 4 = all the bytes together with an error) naming the source   *)
+(* call that goes wrong during that action.                                     *)
 (* srclog = the source reads made by the last call, [kind, want, data] each.    *)
 EXTENDS DrbgObj
 CONSTANT Seed
@@ -33,11 +34,11 @@ pvars == <<inst, mech, gm, alg, st, lastReseed, now, reply, wrap, strength, srck
 
 SelectStrength(r) == IF r <= 14 THEN 14 ELSE IF r <= 16 THEN 16 ELSE IF r <= 24 THEN 24 ELSE IF r <= 32 THEN 32 ELSE r
 SrcKind(fault, j) == IF fault = 0 \/ (fault \div 10) - 1 # j THEN "ok"
-              ELSE CASE fault % 10 = 1 -> "short" [] fault % 10 = 2 -> "err" [] OTHER -> "empty"
+              ELSE CASE fault % 10 = 1 -> "short" [] fault % 10 = 2 -> "err" [] fault % 10 = 4 -> "errfull" [] OTHER -> "empty"
 SrcCall(fault, j, want) ==
   LET kd == SrcKind(fault, j)
   IN [kind |-> IF kd = "empty" THEN "short" ELSE kd, want |-> want,
-      data |-> CASE kd = "ok" -> RP!Bytes(Seed, 500 + j, want)
+      data |-> CASE kd \in {"ok", "errfull"} -> RP!Bytes(Seed, 500 + j, want)
                  [] kd = "short" -> RP!Bytes(Seed, 500 + j, want - 1)
                  [] OTHER -> <<>>]
 Faulty(log) == \E i \in 1..Len(log) : log[i].kind # "ok"
